@@ -91,7 +91,9 @@ private theorem popCount6_lt (f : Nat) : popCount6 f < U32 := by
   unfold popCount6 U32; omega
 
 private theorem volume_valid {hd : LayoutHeader} {px : PixelInfo} {v : Volume} (hp : px.WF)
-    (h : volumeFromHeader hd px = .ok v) : v.Valid := by
+    (h : volumeFromHeader hd px = .ok v) :
+    v.Valid ∧ v.px = px ∧ v.mips = hd.mipmapCount ∧ hd.mipmapCount < 256 ∧
+      hd.depth = some v.d ∧ 0 < v.d := by
   unfold volumeFromHeader parseDimension parseMipmapCount at h
   by_cases hw : hd.width = 0
   · simp [hw] at h
@@ -109,14 +111,21 @@ private theorem volume_valid {hd : LayoutHeader} {px : PixelInfo} {v : Volume} (
             · rw [if_pos hl] at h
               simp only [Except.ok.injEq] at h
               subst h
-              exact ⟨hp, hl⟩
+              exact ⟨⟨hp, hl⟩, rfl, rfl, hm, rfl, Nat.pos_of_ne_zero hd0⟩
             · rw [if_neg hl] at h; cases h
           · simp [hw, hh, hd', hd0, hm] at h
+
+/-- what a produced layout inherits from the header -/
+def ShapeOf (L : DataLayout) (hd : LayoutHeader) : Prop :=
+  L.mips = hd.mipmapCount ∧ hd.mipmapCount < 256 ∧
+    (∀ v, L = .volume v → hd.depth = some v.d ∧ 0 < v.d) ∧
+    (∀ a, L = .textureArray a → a.arrayLen < U32)
 
 /-- Every layout the constructor returns satisfies the invariant from which everything
 else follows (all checked lengths fit; the cached short length is consistent). -/
 theorem layoutOf_valid (hd : LayoutHeader) (px : PixelInfo) (hp : px.WF) (hr : HeaderInRange hd)
-    (L : DataLayout) (h : layoutOf hd px = some (.ok L)) : LayoutValid L ∧ L.px = px := by
+    (L : DataLayout) (h : layoutOf hd px = some (.ok L)) :
+    LayoutValid L ∧ L.px = px ∧ ShapeOf L hd := by
   unfold layoutOf at h
   cases hk : hd.kind with
   | dx10 isCube dim arraySize =>
@@ -144,8 +153,12 @@ theorem layoutOf_valid (hd : LayoutHeader) (px : PixelInfo) (hp : px.WF) (hr : H
                 simp only [ha, Option.map_some, Except.map, Option.some.injEq,
                   Except.ok.injEq] at h
                 subst h
-                obtain ⟨va, _, _, _, h5, _⟩ := createArray_valid (hpx ▸ hp) h6 ha
-                exact ⟨va, by rw [← hpx]; exact h5⟩
+                obtain ⟨va, _, _, h4, h5, h6⟩ := createArray_valid (hpx ▸ hp) h6 ha
+                obtain ⟨_, _, _, hmi, _, _, hml⟩ := fromHeader_px hi
+                refine ⟨va, by rw [← hpx]; exact h5, ?_, hml, ?_, ?_⟩
+                · show _ = hd.mipmapCount; rw [← hmi]; exact h4
+                · intro v' hv'; cases hv'
+                · intro a' ha'; cases ha'; rw [h6]; first | exact h6' | assumption | exact popCount6_lt _
           · simp [h6] at h
     · simp only [hc] at h
       cases dim with
@@ -156,19 +169,10 @@ theorem layoutOf_valid (hd : LayoutHeader) (px : PixelInfo) (hp : px.WF) (hr : H
         | ok v =>
           simp only [hv, Except.map, Except.ok.injEq] at h
           subst h
-          refine ⟨volume_valid hp hv, ?_⟩
-          unfold volumeFromHeader at hv
-          -- the pixel info is passed through unchanged
-          revert hv
-          unfold parseDimension parseMipmapCount Volume.create
-          intro hv
-          split at hv <;> try cases hv
-          split at hv <;> try cases hv
-          split at hv <;> try cases hv
-          split at hv <;> try cases hv
-          split at hv <;> try cases hv
-          split at hv <;> try cases hv
-          rfl
+          obtain ⟨vv, hpx', hm', hml, hdd, hdp⟩ := volume_valid hp hv
+          refine ⟨vv, hpx', hm', hml, ?_, ?_⟩
+          · intro v' hv'; cases hv'; exact ⟨hdd, hdp⟩
+          · intro a ha; cases ha
       | tex1D =>
         simp only [Bool.false_eq_true, if_false] at h
         cases hi : SurfaceLayoutInfo.fromHeader hd px with
@@ -183,8 +187,12 @@ theorem layoutOf_valid (hd : LayoutHeader) (px : PixelInfo) (hp : px.WF) (hr : H
             | ok t =>
               simp only [hc', Except.map, Except.ok.injEq] at h
               subst h
-              obtain ⟨v, _, _, _, h5, h0⟩ := Texture.create_ok (hpx ▸ hp) hc'
-              exact ⟨⟨v, h0⟩, by rw [← hpx]; exact h5⟩
+              obtain ⟨v, _, _, h4, h5, h0⟩ := Texture.create_ok (hpx ▸ hp) hc'
+              obtain ⟨_, _, _, hmi, _, _, hml⟩ := fromHeader_px hi
+              refine ⟨⟨v, h0⟩, by rw [← hpx]; exact h5, ?_, hml, ?_, ?_⟩
+              · show _ = hd.mipmapCount; rw [← hmi]; exact h4
+              · intro v' hv'; cases hv'
+              · intro a' ha'; cases ha'
           · simp only [h1, if_false, liftArr] at h
             cases ha : SurfaceLayoutInfo.createArray { info with h := 1 } .textures arraySize with
             | none => simp [ha] at h
@@ -195,9 +203,12 @@ theorem layoutOf_valid (hd : LayoutHeader) (px : PixelInfo) (hp : px.WF) (hr : H
                 simp only [ha, Option.map_some, Except.map, Option.some.injEq,
                   Except.ok.injEq] at h
                 subst h
-                obtain ⟨va, _, _, _, h5, _⟩ :=
-                  createArray_valid (i := { info with h := 1 }) (hpx ▸ hp) harr ha
-                exact ⟨va, by rw [← hpx]; exact h5⟩
+                obtain ⟨va, _, _, h4, h5, h6⟩ := createArray_valid (i := { info with h := 1 }) (hpx ▸ hp) harr ha
+                obtain ⟨_, _, _, hmi, _, _, hml⟩ := fromHeader_px hi
+                refine ⟨va, by rw [← hpx]; exact h5, ?_, hml, ?_, ?_⟩
+                · show _ = hd.mipmapCount; rw [← hmi]; exact h4
+                · intro v' hv'; cases hv'
+                · intro a' ha'; cases ha'; rw [h6]; first | exact h6' | assumption | exact popCount6_lt _
       | tex2D =>
         simp only [Bool.false_eq_true, if_false] at h
         cases hi : SurfaceLayoutInfo.fromHeader hd px with
@@ -213,8 +224,12 @@ theorem layoutOf_valid (hd : LayoutHeader) (px : PixelInfo) (hp : px.WF) (hr : H
             | ok t =>
               simp only [hc', Except.map, Except.ok.injEq] at h
               subst h
-              obtain ⟨v, _, _, _, h5, h0⟩ := Texture.create_ok (hpx ▸ hp) hc'
-              exact ⟨⟨v, h0⟩, by rw [← hpx]; exact h5⟩
+              obtain ⟨v, _, _, h4, h5, h0⟩ := Texture.create_ok (hpx ▸ hp) hc'
+              obtain ⟨_, _, _, hmi, _, _, hml⟩ := fromHeader_px hi
+              refine ⟨⟨v, h0⟩, by rw [← hpx]; exact h5, ?_, hml, ?_, ?_⟩
+              · show _ = hd.mipmapCount; rw [← hmi]; exact h4
+              · intro v' hv'; cases hv'
+              · intro a' ha'; cases ha'
           · simp only [h1, if_false, liftArr, reduceCtorEq] at h
             cases ha : SurfaceLayoutInfo.createArray info .textures arraySize with
             | none => simp [ha] at h
@@ -225,8 +240,12 @@ theorem layoutOf_valid (hd : LayoutHeader) (px : PixelInfo) (hp : px.WF) (hr : H
                 simp only [ha, Option.map_some, Except.map, Option.some.injEq,
                   Except.ok.injEq] at h
                 subst h
-                obtain ⟨va, _, _, _, h5, _⟩ := createArray_valid (hpx ▸ hp) harr ha
-                exact ⟨va, by rw [← hpx]; exact h5⟩
+                obtain ⟨va, _, _, h4, h5, h6⟩ := createArray_valid (hpx ▸ hp) harr ha
+                obtain ⟨_, _, _, hmi, _, _, hml⟩ := fromHeader_px hi
+                refine ⟨va, by rw [← hpx]; exact h5, ?_, hml, ?_, ?_⟩
+                · show _ = hd.mipmapCount; rw [← hmi]; exact h4
+                · intro v' hv'; cases hv'
+                · intro a' ha'; cases ha'; rw [h6]; first | exact h6' | assumption | exact popCount6_lt _
   | dx9 caps2 =>
     simp only [hk] at h
     by_cases hcube : caps2 / CAPS2_CUBE_MAP % 2 = 1
@@ -250,8 +269,12 @@ theorem layoutOf_valid (hd : LayoutHeader) (px : PixelInfo) (hp : px.WF) (hr : H
               simp only [ha, Option.map_some, Except.map, Option.some.injEq,
                 Except.ok.injEq] at h
               subst h
-              obtain ⟨va, _, _, _, h5, _⟩ := createArray_valid (hpx ▸ hp) (popCount6_lt _) ha
-              exact ⟨va, by rw [← hpx]; exact h5⟩
+              obtain ⟨va, _, _, h4, h5, h6⟩ := createArray_valid (hpx ▸ hp) (popCount6_lt _) ha
+              obtain ⟨_, _, _, hmi, _, _, hml⟩ := fromHeader_px hi
+              refine ⟨va, by rw [← hpx]; exact h5, ?_, hml, ?_, ?_⟩
+              · show _ = hd.mipmapCount; rw [← hmi]; exact h4
+              · intro v' hv'; cases hv'
+              · intro a' ha'; cases ha'; rw [h6]; first | exact h6' | assumption | exact popCount6_lt _
     · simp only [hcube, if_false] at h
       by_cases hvol : caps2 / CAPS2_VOLUME % 2 = 1
       · simp only [hvol, if_true, Option.some.injEq] at h
@@ -260,17 +283,10 @@ theorem layoutOf_valid (hd : LayoutHeader) (px : PixelInfo) (hp : px.WF) (hr : H
         | ok v =>
           simp only [hv, Except.map, Except.ok.injEq] at h
           subst h
-          refine ⟨volume_valid hp hv, ?_⟩
-          revert hv
-          unfold volumeFromHeader parseDimension parseMipmapCount Volume.create
-          intro hv
-          split at hv <;> try cases hv
-          split at hv <;> try cases hv
-          split at hv <;> try cases hv
-          split at hv <;> try cases hv
-          split at hv <;> try cases hv
-          split at hv <;> try cases hv
-          rfl
+          obtain ⟨vv, hpx', hm', hml, hdd, hdp⟩ := volume_valid hp hv
+          refine ⟨vv, hpx', hm', hml, ?_, ?_⟩
+          · intro v' hv'; cases hv'; exact ⟨hdd, hdp⟩
+          · intro a ha; cases ha
       · simp only [hvol, if_false] at h
         cases hi : SurfaceLayoutInfo.fromHeader hd px with
         | error e => simp [hi] at h
@@ -282,8 +298,12 @@ theorem layoutOf_valid (hd : LayoutHeader) (px : PixelInfo) (hp : px.WF) (hr : H
           | ok t =>
             simp only [hc', Except.map, Except.ok.injEq] at h
             subst h
-            obtain ⟨v, _, _, _, h5, h0⟩ := Texture.create_ok (hpx ▸ hp) hc'
-            exact ⟨⟨v, h0⟩, by rw [← hpx]; exact h5⟩
+            obtain ⟨v, _, _, h4, h5, h0⟩ := Texture.create_ok (hpx ▸ hp) hc'
+            obtain ⟨_, _, _, hmi, _, _, hml⟩ := fromHeader_px hi
+            refine ⟨⟨v, h0⟩, by rw [← hpx]; exact h5, ?_, hml, ?_, ?_⟩
+            · show _ = hd.mipmapCount; rw [← hmi]; exact h4
+            · intro v' hv'; cases hv'
+            · intro a' ha'; cases ha'
 
 /-- For a valid layout the iterators of the source produce exactly the specification
 list, the reported total is the ideal total and it fits 64 bits: no `unwrap` panics
@@ -319,7 +339,7 @@ starts at 0, is contiguous, sums to the reported total, and the total is below 2
 theorem flatten_contiguous (hd : LayoutHeader) (px : PixelInfo) (hp : px.WF)
     (hr : HeaderInRange hd) (L : DataLayout) (h : layoutOf hd px = some (.ok L)) :
     ∃ l total, L.flattenP = some l ∧ L.dataLenP = some total ∧ total < U64 ∧ Contig 0 l total := by
-  obtain ⟨hv, _⟩ := layoutOf_valid hd px hp hr L h
+  obtain ⟨hv, _, _⟩ := layoutOf_valid hd px hp hr L h
   obtain ⟨h1, h2, h3⟩ := flatten_eq_spec L hv
   exact ⟨_, _, h1, h2, h3, spec_contiguous L⟩
 
